@@ -6,17 +6,16 @@ Inductive backend := MySQL | Postgres | SQLite.
 Definition backend_eqb (a b : backend) : bool :=
   match a, b with MySQL, MySQL | Postgres, Postgres | SQLite, SQLite => true | _, _ => false end.
 
-(* the literal chain of nine `replace` calls of the default escape_string *)
+(* the literal chain of `replace` calls of the default escape_string *)
 Definition escape_default (s : str) : str :=
   replace_char 13 [92; 114]        (* '\r' -> \r *)
   (replace_char 10 [92; 110]       (* '\n' -> \n *)
-  (replace_char 26 [92; 122]       (* '\x1a' -> \z *)
   (replace_char 9 [92; 116]        (* '\t' -> \t *)
   (replace_char 8 [92; 98]         (* '\x08' -> \b *)
   (replace_char 0 [92; 48]         (* '\0' -> \0 *)
   (replace_char 39 [92; 39]        (* '\'' -> \' *)
   (replace_char 34 [92; 34]        (* '"' -> \" *)
-  (replace_char 92 [92; 92] s)))))))).
+  (replace_char 92 [92; 92] s))))))).
 
 Definition unescape_char (c : N) : N :=
   if c =? 48 then 0 else if c =? 98 then 8 else if c =? 116 then 9 else
@@ -45,4 +44,4 @@ Definition unescape_string (b : backend) (s : str) : str :=
 Definition esc_char (c : N) : str :=
   if c =? 92 then [92; 92] else if c =? 34 then [92; 34] else if c =? 39 then [92; 39] else
   if c =? 0 then [92; 48] else if c =? 8 then [92; 98] else if c =? 9 then [92; 116] else
-  if c =? 26 then [92; 122] else if c =? 10 then [92; 110] else if c =? 13 then [92; 114] else [c].
+  if c =? 10 then [92; 110] else if c =? 13 then [92; 114] else [c].
